@@ -668,6 +668,6 @@ Lemma receipts_complete_lemma :
 Proof.
   intros birthday c ops s Hv Hops Hrun b t o a Hb HQ Ht Ho Hown.
   pose proof (reach_inv _ _ _ _ Hv Hops Hrun) as I.
-  destruct (note_of_output c c (valid_chain_universe birthday c Hv) s I b t o a Hb Ht Ho Hown HQ) as [n [_ [Hn [Ek [Ea [Ev _]]]]]].
+  destruct (note_of_output c c (incl_refl c) (valid_chain_universe birthday c Hv) s I b t o a Hb Ht Ho Hown HQ) as [n [_ [Hn [Ek [Ea [Ev _]]]]]].
   exists n. auto.
 Qed.
